@@ -582,4 +582,14 @@ v("52h-log-to-stderr", [(SE, "            await self._parse_command(msg)\n", "  
 v("P15-truncate0-then-seek", [(SE, "            self._response_buffer.seek(0)\n            self._response_buffer.truncate()\n", "            self._response_buffer.truncate(0)\n            self._response_buffer.seek(0)\n")], {"C18": "ok"})
 v("P-parse-command-log-lines", [(SE, "        command = kwargs.pop(CMD)\n", "        log.debug('parsed %s', kwargs)\n        command = kwargs.pop(CMD)\n")], {"C18": "ok", "C17": "ok", "C16": "ok"})
 
+RESP_OLD = """        self._response_buffer.write(
+            CMD_OK.decode() if output is None else str(output)
+        )
+
+    async def _exec_property_and_respond("""
+v("P-respond-helper-correct", [(SE, RESP_OLD, "        self._respond(output)\n\n    async def _exec_property_and_respond("),
+   (SE, "    async def _exec_method_and_respond(\n", "    def _respond(self, output: Any) -> None:\n        self._response_buffer.write(CMD_OK.decode() if output is None else str(output))\n\n    async def _exec_method_and_respond(\n")], {"C17": "ok", "C18": "ok"})
+v("47i-respond-helper-falsy", [(SE, RESP_OLD, "        self._respond(output)\n\n    async def _exec_property_and_respond("),
+   (SE, "    async def _exec_method_and_respond(\n", "    def _respond(self, output: Any) -> None:\n        self._response_buffer.write(str(output or CMD_OK.decode()))\n\n    async def _exec_method_and_respond(\n")], {"C17": "R17.1r"})
+
 VARIANTS = V
